@@ -17,6 +17,9 @@ PKG = 'saml2_tophat'
 if SRC not in sys.path:
     sys.path.insert(0, SRC)
 warnings.simplefilter('ignore')
+# the repository's own modules call warnings.simplefilter('default') on import; its dependencies' deprecation chatter is
+# not part of any verdict
+warnings.showwarning = lambda *a, **k: None
 
 # modules whose classes are registered (fixed list => deterministic class ids)
 REGISTER_MODULES = [
